@@ -375,8 +375,19 @@ func (d Descriptor) GetData() ([]byte, error) {
 	return b, nil
 }
 
+// errReader is an io.Reader that always fails with err.
+type errReader struct{ err error }
+
+func (r errReader) Read([]byte) (int, error) { return 0, r.err }
+
 // GetReader returns a io.Reader that reads the data object associated with descriptor d.
 func (d Descriptor) GetReader() io.Reader {
+	// io.NewSectionReader cannot report an invalid size, and reading a section whose offset and size
+	// are both negative panics, so fail on first use instead.
+	if d.raw.Size < 0 {
+		return errReader{errInvalidObjectSize}
+	}
+
 	return io.NewSectionReader(d.r, d.raw.Offset, d.raw.Size)
 }
 
